@@ -437,13 +437,43 @@ pub fn c02_witness_many_nodes(ctx: &mut Ctx) {
 pub fn c03_case(ctx: &mut Ctx, rng: &mut Rng) {
     let cfg = GenCfg { clean_space: rng.chance(0.6), ..Default::default() };
     let mut case = gen_tokcase(rng, &cfg, 24, false);
+    if rng.chance(0.08) {
+        case.sentences.push("\u{FFFE}\u{FFFF}\u{FFFF}a".into());
+    }
     // sweep max_grouping_len around run lengths
     case.opts = vec![gen_opts(rng, &case.spec), Opts { ignore_space: false, mgl: rng.below(4) }];
+    if case.user.is_some() && rng.chance(0.15) {
+        // the user lexicon is loaded and cleared again: candidates must be those of the system lexicon alone
+        c03_run_cleared(ctx, &case);
+        return;
+    }
     c03_run(ctx, &case);
+}
+
+fn c03_run_cleared(ctx: &mut Ctx, case: &TokCase) {
+    let mut c2 = case.clone();
+    c2.user = None;
+    c2.mapping = None;
+    c2.roundtrip = false;
+    let with_user = TokCase { mapping: None, roundtrip: false, ..case.clone() };
+    let d = match prepare(&with_user) {
+        Prep::Ready { dict, .. } => dict,
+        _ => return,
+    };
+    let d = match load_user(d, None) {
+        Ok(Ok(d)) => d,
+        _ => return,
+    };
+    ctx.bucket("user_lexicon_loaded_then_cleared");
+    c03_run_on(ctx, &c2, Prep::Ready { dict: d, spec: c2.spec.clone(), user: None });
 }
 
 pub fn c03_run(ctx: &mut Ctx, case: &TokCase) {
     let prep = prepare(case);
+    c03_run_on(ctx, case, prep);
+}
+
+fn c03_run_on(ctx: &mut Ctx, case: &TokCase, prep: Prep) {
     count_prep(ctx, &prep);
     let (dict, spec, user) = match prep {
         Prep::Ready { dict, spec, user } => (dict, spec, user),
